@@ -40,6 +40,7 @@ import RbModel.Lemmas.FlagCarry
 import RbModel.Lemmas.Stch
 import RbModel.Lemmas.GposFlag
 import RbModel.Gen.GposWorked
+import RbModel.Lemmas.MatchSpanFlags
 
 namespace RbModel.Flags
 
@@ -601,3 +602,317 @@ example : ∃ (b b' : Buf) (p p' : Array Pos) (v1 v2 : ValueRecordD),
    { xAdvDevice := some (-200) }, {}, by rfl, by decide, by decide, rfl, rfl, rfl, rfl, by decide⟩
 
 end RbModel.GposFlag
+
+
+/-! ### the flagged span covers what the GSUB matching machinery inspected (contextual rules, ligatures)
+
+  `matchInputI`, `matchLookaheadI`, `matchBacktrackI`, `chainMatchI` (Lemmas/MatchSpan*.lean) are the matchers of Gsub.lean
+  (the line-by-line models of ot_layout_gsubgpos.rs match_input / match_lookahead / match_backtrack / apply_chain_context, tied
+  to the crate by the `gsub-interp` and `gsub-flags` streams) that additionally return the list of glyphs they READ:
+  `Rd.inp i` = `buffer.info[i]` (the current glyph, every glyph the skipping iterator stepped over or stopped at),
+  `Rd.out j` = `out_info()[j]` read by the backward iterator, `Rd.lig j` = `out_info()[j]` read by the lig-base scan of
+  match_input.  `C03_match_instrumented_same`: forgetting the list gives the plain matcher, and the model's rules are
+  "instrumented matching phase, then flag call, then action" — equations, nothing new is trusted.
+
+  The statements about flags are compositions with `C03_interior` / `C03_interior_out`, so they are stated at the level
+  those allow: clusters monotone over the unconsumed input `[idx, len)` (and over the out-buffer), cluster values ≤ u32::MAX.
+  They speak about the buffer right after the flag call (`b`); the nested lookups of the rule then run on `b`
+  (`applyLookup … { c with buf := b } … = .ok c'`) and may move glyphs — what they do to flags is the subject of the
+  primitives' theorems above (`C03_set_cluster_flags` …).
+
+  NOT covered by the flagged span (and said so in each statement): the `Rd.lig j` reads.  When the current glyph is a mark
+  attached to a component of a ligature, match_input scans the out-buffer backwards over the glyphs with the same lig_id for the
+  ligature itself and asks whether it is ignorable; `unsafe_to_break(idx, end)` / `merge_clusters(idx, end)` of Context and
+  Ligature lookups do not reach into the out-buffer.  Those glyphs carry the lig_id of the current glyph, i.e. they are the
+  ligature the mark was attached to by an earlier `ligate_input`, which merged that mark into the ligature's cluster (levels 0/1)
+  or flagged the range (level 2) — that argument is about the history of the buffer and is not proved here. -/
+namespace RbModel.Flags
+open RbModel RbModel.Gsub
+
+/-- **the instrumented matchers are the matchers**: dropping the list of reads gives exactly `matchInput`, `matchLookahead`,
+    `matchBacktrack` of the model, and the contextual rules of the model are the instrumented matching phase followed by the
+    flag call on the reported span and the action.  For every context, font, rule. -/
+theorem C03_match_instrumented_same (recurse : Ctx → Nat → M (Ctx × Bool)) (c : Ctx) (n : Nat) (fn : Nat → Nat → Bool)
+    (p : List Nat) (s : Nat) (input : List Nat) (mf : Nat → Nat → Bool) (lookups : List Rec)
+    (nBack nIn nAhead : Nat) (fBack fIn fAhead : Nat → Nat → Bool) :
+    (matchInputI c n fn p).map (·.r) = matchInput c n fn p ∧
+    (matchLookaheadI c n fn s).map (·.1) = matchLookahead c n fn s ∧
+    (matchBacktrackI c n fn).map (·.1) = matchBacktrack c n fn ∧
+    applyContextRule recurse c input mf lookups =
+      (matchInputI c input.length (fun g i => mf g (input.getD i 0)) [0, 0, 0, 0] >>=
+        contextFinish recurse c input.length lookups) ∧
+    applyChainRule recurse c nBack nIn nAhead fBack fIn fAhead lookups =
+      (chainMatchI c nBack nIn nAhead fBack fIn fAhead >>= chainFinish recurse c nIn lookups) :=
+  ⟨matchInputI_erase c n fn p, matchLookaheadI_erase c n fn s, matchBacktrackI_erase c n fn,
+   applyContextRule_eq recurse c input mf lookups, applyChainRule_eq recurse c nBack nIn nAhead fBack fIn fAhead lookups⟩
+
+/-- **INSPECTED ⊆ SPAN for the three matchers**, success and failure alike, every font / lookup / buffer:
+    * match_input: every in-buffer glyph read lies in `[idx, len)`, and below `end_position` unless the matcher returned through
+      one of the ligature-component `return false` (`why = ligComp`: `end_position` is never written and stays 0 — see
+      `known_C04_ligcomp_fail_unflagged` in Props/C04.lean); `end_position ∈ (idx, len]` on success and on an iterator failure;
+      out-buffer glyphs are read by the lig-base scan only (`Rd.lig`);
+    * match_lookahead from `s`: reads lie in `[s, end_index)`, `s ≤ end_index ≤ len`;
+    * match_backtrack: reads lie in `[match_start, backtrack_len)` of the out-buffer. -/
+theorem C03_match_reads_in_span (c : Ctx) (n : Nat) (fn : Nat → Nat → Bool) (hidx : c.buf.idx < c.buf.len) :
+    (∀ p R, matchInputI c n fn p = .ok R →
+      (R.r.ok = true ↔ R.why = .matched) ∧ (R.why = .tooLong → R.reads = [] ∧ R.r.endPos = 0) ∧
+      (R.why = .ligComp → R.r.endPos = 0) ∧
+      (R.why = .matched ∨ R.why = .iter → c.buf.idx < R.r.endPos ∧ R.r.endPos ≤ c.buf.len) ∧
+      (∀ i, Rd.inp i ∈ R.reads → c.buf.idx ≤ i ∧ i < c.buf.len ∧ (R.why ≠ .ligComp → i < R.r.endPos)) ∧
+      (∀ j, Rd.out j ∉ R.reads) ∧ (∀ j, Rd.lig j ∈ R.reads → j < c.buf.outLen)) ∧
+    (∀ s ok e rs, matchLookaheadI c n fn s = .ok ((ok, e), rs) → s ≤ c.buf.len →
+      s ≤ e ∧ e ≤ c.buf.len ∧ ∀ i ∈ rs, s ≤ i ∧ i < e) ∧
+    (∀ ok st rs, matchBacktrackI c n fn = .ok ((ok, st), rs) →
+      st ≤ backtrackLen c.buf ∧ ∀ j ∈ rs, st ≤ j ∧ j < backtrackLen c.buf) := by
+  refine ⟨?_, ?_, ?_⟩
+  · intro p R hR
+    obtain ⟨r1, r2, r3, r4, r5⟩ := matchInputI_span c n fn p R hR hidx
+    refine ⟨r1, r2, r3, r4, ?_, ?_, ?_⟩
+    · intro i hi
+      rcases r5 _ hi with ⟨i', a1, a2, a3, a4⟩ | ⟨j, a1, _⟩
+      · cases a1; exact ⟨a2, a3, a4⟩
+      · cases a1
+    · intro j hj
+      rcases r5 _ hj with ⟨i', a1, _⟩ | ⟨j', a1, _⟩ <;> cases a1
+    · intro j hj
+      rcases r5 _ hj with ⟨i', a1, _⟩ | ⟨j', a1, a2⟩
+      · cases a1
+      · cases a1; exact a2
+  · intro s ok e rs h hs
+    exact matchLookaheadI_span c n fn s ok e rs h hs
+  · intro ok st rs h
+    exact matchBacktrackI_span c n fn ok st rs h
+
+-- non-vacuity: the matcher steps over the ignored mark (index 2) and stops at index 3; both are among the reads
+example : (matchInputI exCtx 1 (fun g i => g == [2].getD i 0) [0, 0, 0, 0]).map MatchInI.view
+    = .ok (true, 4, [.inp 1, .inp 2, .inp 3], .matched) := by rfl
+example : (matchInputI exCtx 1 (fun g i => g == [3].getD i 0) [0, 0, 0, 0]).map MatchInI.view
+    = .ok (false, 4, [.inp 1, .inp 2, .inp 3], .iter) := by rfl
+example : matchLookaheadI exCtx 1 (fun g _ => g == 3) 4 = .ok ((true, 5), [4]) := by rfl
+example : matchBacktrackI exCtx 1 (fun g _ => g == 5) = .ok ((true, 0), [0]) := by rfl
+example : exCtx.buf.idx < exCtx.buf.len := by decide
+
+/-- **a context rule that matched flagged everything it inspected** (`apply_context`, Context formats 1 and 2; format 3 is the
+    same code inline).  When the rule returns `(c', true)`: match_input succeeded with reads `R.reads`, the flag call was
+    `unsafe_to_break(idx, end_position)` on the buffer the rule found, the nested lookups ran on the flagged buffer `b`, and
+    every in-buffer glyph the matcher read — skipped glyphs and the last matched glyph included — lies in `[idx, end_position)`
+    and in `b` either belongs to the minimum cluster `m` of that range or carries UNSAFE_TO_BREAK (`BreakFlagged`: it is the old
+    glyph with `mask |= BREAK | CONCAT` iff its cluster differs from `m`).  Monotone clusters over `[idx, len)` (the level
+    `C03_interior` allows), all three cluster levels.  The backward iterator is not used (`Rd.out` never occurs); the lig-base
+    scan's out-buffer reads are outside the span (see the section comment). -/
+theorem C03_context_match_flags_inspected (recurse : Ctx → Nat → M (Ctx × Bool)) (c c' : Ctx) (input : List Nat)
+    (matchFn : Nat → Nat → Bool) (lookups : List Rec)
+    (h : applyContextRule recurse c input matchFn lookups = .ok (c', true))
+    (hidx : c.buf.idx < c.buf.len) (hlen : c.buf.len ≤ c.buf.info.length)
+    (hu32 : ∀ j x, c.buf.idx ≤ j → j < c.buf.len → c.buf.info[j]? = some x → x.cluster ≤ U32MAX)
+    (hmono : MonoRange c.buf.info c.buf.idx c.buf.len) :
+    ∃ (R : MatchInI) (b : Buf) (m : Nat),
+      matchInputI c input.length (fun g i => matchFn g (input.getD i 0)) [0, 0, 0, 0] = .ok R ∧ R.r.ok = true ∧
+      c.buf.idx < R.r.endPos ∧ R.r.endPos ≤ c.buf.len ∧
+      c.buf.unsafeToBreak c.buf.idx (some R.r.endPos) = .ok b ∧
+      applyLookup recurse { c with buf := b } input.length R.r.positions R.r.endPos lookups = .ok c' ∧
+      IsRangeMin c.buf.info c.buf.idx R.r.endPos m ∧
+      (∀ i, Rd.inp i ∈ R.reads → c.buf.idx ≤ i ∧ i < R.r.endPos ∧
+          ∃ x, c.buf.info[i]? = some x ∧ BreakFlagged b.info i x m) ∧
+      (∀ j, Rd.out j ∉ R.reads) ∧ (∀ j, Rd.lig j ∈ R.reads → j < c.buf.outLen) := by
+  rw [applyContextRule_eq] at h
+  cases hR : matchInputI c input.length (fun g i => matchFn g (input.getD i 0)) [0, 0, 0, 0] with
+  | error e => simp only [hR, bind, Except.bind] at h; cases h
+  | ok R =>
+    simp only [hR, bind, Except.bind, contextFinish] at h
+    cases hok : R.r.ok with
+    | false =>
+      simp only [hok, Bool.false_eq_true, if_false] at h
+      cases hb : c.buf.unsafeToConcat c.buf.idx (some R.r.endPos) with
+      | error e => simp [hb] at h
+      | ok b => simp [hb, pure, Except.pure] at h
+    | true =>
+      obtain ⟨r1, _, _, r4, r5⟩ := matchInputI_span c _ _ _ R hR hidx
+      have hwm := r1.mp hok
+      obtain ⟨q1, q2⟩ := r4 (Or.inl hwm)
+      obtain ⟨b, m, hb, hmin, hupd, _⟩ := C03_interior c.buf c.buf.idx R.r.endPos q1 q2 hlen
+        (fun j x a1 a2 a3 => hu32 j x a1 (by omega) a3) (MonoRange.shrink hmono q2)
+      simp only [hok, if_true, hb] at h
+      cases hal : applyLookup recurse { c with buf := b } input.length R.r.positions R.r.endPos lookups with
+      | error e => simp [hal] at h
+      | ok c2 =>
+        simp only [hal, pure, Except.pure, Except.ok.injEq, Prod.mk.injEq, and_true] at h
+        subst h
+        refine ⟨R, b, m, rfl, hok, q1, q2, hb, hal, hmin, ?_, ?_, ?_⟩
+        · intro i hi
+          rcases r5 _ hi with ⟨i', a1, a2, a3, a4⟩ | ⟨j, a1, _⟩
+          · cases a1
+            have hlt := a4 (by simp [hwm])
+            have hil : i < c.buf.info.length := by omega
+            exact ⟨a2, hlt, _, List.getElem?_eq_getElem hil,
+              BreakFlagged.of_upd hupd (List.getElem?_eq_getElem hil) a2 hlt⟩
+          · cases a1
+        · intro j hj
+          rcases r5 _ hj with ⟨i', a1, _⟩ | ⟨j', a1, _⟩ <;> cases a1
+        · intro j hj
+          rcases r5 _ hj with ⟨i', a1, _⟩ | ⟨j', a1, a2⟩
+          · cases a1
+          · cases a1; exact a2
+
+-- non-vacuity: the rule "1 (marks ignored) 2" on glyphs 5 | 1 mark 2 3: matched, reads = [1, 2, 3], the mark (cluster 2) and
+-- the glyph 2 (cluster 3) are flagged, the first glyph of the range (minimum cluster 1) is not
+example : ∃ c', applyContextRule noRecurse exCtx [2] (fun g v => g == v) [] = .ok (c', true) ∧
+    c'.buf.info.map (·.mask) = [1, 1, 3, 3, 1] ∧
+    exCtx.buf.idx < exCtx.buf.len ∧ exCtx.buf.len ≤ exCtx.buf.info.length ∧
+    (∀ j x, exCtx.buf.idx ≤ j → j < exCtx.buf.len → exCtx.buf.info[j]? = some x → x.cluster ≤ U32MAX) ∧
+    MonoRange exCtx.buf.info exCtx.buf.idx exCtx.buf.len :=
+  ⟨_, rfl, rfl, by decide, by decide, fun j x _ _ hx => u32_of_all (by decide) j x hx, MonoRange.of_pairwise (by decide) _ _⟩
+
+/-- **a chain rule that matched flagged everything it inspected** (`apply_chain_context`, ChainContext formats 1-3), in the
+    state every forward GSUB pass is in (`have_output`).  When the rule returns `(c', true)`: the matching phase `chainMatchI`
+    ended `matched` with the span `out[start_index, out_len) ++ info[idx, end_index)`, the flag call was
+    `unsafe_to_break_from_outbuffer(start_index, end_index)`, the nested lookups ran on the flagged buffer `b`, and every glyph
+    read by match_input, match_lookahead (`Rd.inp`) and match_backtrack (`Rd.out`) lies in that span and in `b` either belongs to
+    the minimum cluster `r` of the two-sided range or carries UNSAFE_TO_BREAK.  Monotone clusters over the out-buffer and over
+    `[idx, len)`, both output modes, all three cluster levels. -/
+theorem C03_chain_match_flags_inspected (recurse : Ctx → Nat → M (Ctx × Bool)) (c c' : Ctx) (nBack nIn nAhead : Nat)
+    (fBack fIn fAhead : Nat → Nat → Bool) (lookups : List Rec)
+    (h : applyChainRule recurse c nBack nIn nAhead fBack fIn fAhead lookups = .ok (c', true))
+    (hidx : c.buf.idx < c.buf.len) (hwf : Buf.WF c.buf) (hho : c.buf.haveOutput = true)
+    (hu1 : ∀ j x, j < c.buf.outLen → c.buf.outArr[j]? = some x → x.cluster ≤ U32MAX)
+    (hu2 : ∀ j x, c.buf.idx ≤ j → j < c.buf.len → c.buf.info[j]? = some x → x.cluster ≤ U32MAX)
+    (hmo : MonoRange c.buf.outArr 0 c.buf.outLen) (hmi : MonoRange c.buf.info c.buf.idx c.buf.len) :
+    ∃ (m : ChainM) (b : Buf) (r : Nat),
+      chainMatchI c nBack nIn nAhead fBack fIn fAhead = .ok m ∧ m.verdict = .matched ∧
+      m.startIndex ≤ c.buf.outLen ∧ c.buf.idx < m.endIndex ∧ m.endIndex ≤ c.buf.len ∧
+      c.buf.unsafeToBreakFromOut m.startIndex (some m.endIndex) = .ok b ∧
+      applyLookup recurse { c with buf := b } nIn m.R.r.positions m.R.r.endPos lookups = .ok c' ∧
+      LowerBound c.buf.outArr m.startIndex c.buf.outLen r ∧ LowerBound c.buf.info c.buf.idx m.endIndex r ∧
+      ((∃ j x, m.startIndex ≤ j ∧ j < c.buf.outLen ∧ c.buf.outArr[j]? = some x ∧ x.cluster = r) ∨
+       (∃ j x, c.buf.idx ≤ j ∧ j < m.endIndex ∧ c.buf.info[j]? = some x ∧ x.cluster = r)) ∧
+      (∀ i, Rd.inp i ∈ m.reads → c.buf.idx ≤ i ∧ i < m.endIndex ∧
+          ∃ x, c.buf.info[i]? = some x ∧ BreakFlagged b.info i x r) ∧
+      (∀ j, Rd.out j ∈ m.reads → m.startIndex ≤ j ∧ j < c.buf.outLen ∧
+          ∃ x, c.buf.outArr[j]? = some x ∧ BreakFlagged b.outArr j x r) ∧
+      (∀ j, Rd.lig j ∈ m.reads → j < c.buf.outLen) := by
+  rw [applyChainRule_eq] at h
+  cases hm : chainMatchI c nBack nIn nAhead fBack fIn fAhead with
+  | error e => simp only [hm, bind, Except.bind] at h; cases h
+  | ok m =>
+    obtain ⟨_, _, s3, s4, s5, s6, s7⟩ := chainMatchI_span c _ _ _ _ _ _ m hm hidx
+    simp only [hm, bind, Except.bind, chainFinish] at h
+    have hbl : backtrackLen c.buf = c.buf.outLen := by simp [backtrackLen, hho]
+    cases hv : m.verdict with
+    | inputFail | aheadFail =>
+      simp only [hv] at h
+      cases hb : c.buf.unsafeToConcat c.buf.idx (some m.endIndex) with
+      | error e => simp [hb] at h
+      | ok b => simp [hb, pure, Except.pure] at h
+    | backFail =>
+      simp only [hv] at h
+      cases hb : c.buf.unsafeToConcatFromOut m.startIndex (some m.endIndex) with
+      | error e => simp [hb] at h
+      | ok b => simp [hb, pure, Except.pure] at h
+    | matched =>
+      simp only [hv] at h
+      have hst : m.startIndex ≤ c.buf.outLen := by rw [← hbl]; exact s6 (Or.inr hv)
+      have hlt : c.buf.idx < m.endIndex := s5 (by simp [hv])
+      obtain ⟨b, r, o1, hb, l1, l2, hatt, U1, U2, hout, hb'⟩ :=
+        C03_interior_out c.buf m.startIndex m.endIndex hho hst hwf.out_cap s3 s4 hwf.len_le
+          (fun j x _ a2 a3 => hu1 j x a2 a3) (fun j x a1 a2 a3 => hu2 j x a1 (by omega) a3) (Or.inr hlt)
+          (MonoRange.shrinkL hmo (Nat.zero_le _)) (MonoRange.shrink hmi s4)
+      have hsep : b.sepOut = c.buf.sepOut := by rw [hb']
+      obtain ⟨t1, t2⟩ := twoSided_at U1 U2 hout hsep hwf.nosep_ok
+      simp only [hb] at h
+      cases hal : applyLookup recurse { c with buf := b } nIn m.R.r.positions m.R.r.endPos lookups with
+      | error e => simp [hal] at h
+      | ok c2 =>
+        simp only [hal, pure, Except.pure, Except.ok.injEq, Prod.mk.injEq, and_true] at h
+        subst h
+        refine ⟨m, b, r, rfl, hv, hst, hlt, s4, hb, hal, l1, l2, hatt, ?_, ?_, ?_⟩
+        · intro i hi
+          rcases s7 _ hi with ⟨i', a1, a2, a3, a4⟩ | ⟨j, a1, _⟩ | ⟨j, a1, _⟩
+          · cases a1
+            have hlt' := a4 (by simp [hv])
+            have hil : i < c.buf.info.length := by have := hwf.len_le; omega
+            exact ⟨a2, hlt', _, List.getElem?_eq_getElem hil,
+              BreakFlagged.of_eq (t1 i _ a2 hlt' (List.getElem?_eq_getElem hil))⟩
+          · cases a1
+          · cases a1
+        · intro j hj
+          rcases s7 _ hj with ⟨i', a1, _⟩ | ⟨j', a1, _, a3, a4⟩ | ⟨j', a1, _⟩
+          · cases a1
+          · cases a1
+            rw [hbl] at a4
+            have hjl : j < c.buf.outArr.length := by have := hwf.out_cap; omega
+            exact ⟨a3, a4, _, List.getElem?_eq_getElem hjl,
+              BreakFlagged.of_eq (t2 j _ a3 a4 (List.getElem?_eq_getElem hjl))⟩
+          · cases a1
+        · intro j hj
+          rcases s7 _ hj with ⟨i', a1, _⟩ | ⟨j', a1, _⟩ | ⟨j', a1, a2⟩
+          · cases a1
+          · cases a1
+          · cases a1; exact a2
+
+-- non-vacuity: backtrack 5, input "1 (marks ignored) 2", lookahead 3 on glyphs 5 | 1 mark 2 3: matched, the span is the whole
+-- buffer, reads = input [1, 2, 3] + lookahead [4] + backtrack out[0]; everything outside cluster 0 is flagged
+example : (chainMatchI exCtx 1 1 1 (fun g _ => g == 5) (fun g _ => g == 2) (fun g _ => g == 3)).map ChainM.view
+    = .ok (.matched, 0, 5, [.inp 1, .inp 2, .inp 3, .inp 4, .out 0]) := by rfl
+example : ∃ c', applyChainRule noRecurse exCtx 1 1 1 (fun g _ => g == 5) (fun g _ => g == 2) (fun g _ => g == 3) []
+      = .ok (c', true) ∧ c'.buf.info.map (·.mask) = [1, 3, 3, 3, 3] ∧
+    exCtx.buf.idx < exCtx.buf.len ∧ Buf.WF exCtx.buf ∧ exCtx.buf.haveOutput = true ∧
+    (∀ j x, j < exCtx.buf.outLen → exCtx.buf.outArr[j]? = some x → x.cluster ≤ U32MAX) ∧
+    (∀ j x, exCtx.buf.idx ≤ j → j < exCtx.buf.len → exCtx.buf.info[j]? = some x → x.cluster ≤ U32MAX) ∧
+    MonoRange exCtx.buf.outArr 0 exCtx.buf.outLen ∧ MonoRange exCtx.buf.info exCtx.buf.idx exCtx.buf.len :=
+  ⟨_, rfl, rfl, by decide, ⟨by decide, by decide, by simp [exCtx], by decide⟩, rfl,
+   fun j x _ hx => u32_of_all (l := exCtx.buf.outArr) (by decide) j x hx,
+   fun j x _ _ hx => u32_of_all (by decide) j x hx,
+   MonoRange.of_pairwise (l := exCtx.buf.outArr) (by decide) _ _, MonoRange.of_pairwise (by decide) _ _⟩
+
+/-- **Ligature::apply, a ligature that forms**: everything match_input read in the in-buffer lies in `[idx, match_end)`, the
+    range `ligate_input` merges into one cluster (`merge_clusters(idx, match_end)`; at cluster level 2 that call IS
+    `unsafe_to_break(idx, match_end)`) -/
+theorem C03_ligature_match_reads_merged (c c' : Ctx) (comps : List Nat) (lig : Nat) (hne : comps.isEmpty = false)
+    (h : ligatureRule c (comps, lig) = .ok (c', true)) (hidx : c.buf.idx < c.buf.len) :
+    ∃ (R : MatchInI),
+      matchInputI c comps.length (fun g i => g == comps.getD i 0) [0, 0, 0, 0] = .ok R ∧ R.r.ok = true ∧
+      c.buf.idx < R.r.endPos ∧ R.r.endPos ≤ c.buf.len ∧
+      ligateInput c (comps.length + 1) R.r.positions R.r.endPos R.r.totalComps lig = .ok c' ∧
+      (∀ i, Rd.inp i ∈ R.reads → c.buf.idx ≤ i ∧ i < R.r.endPos) ∧
+      (∀ j, Rd.out j ∉ R.reads) ∧ (∀ j, Rd.lig j ∈ R.reads → j < c.buf.outLen) := by
+  rw [ligatureRule_eq c (comps, lig) hne] at h
+  cases hR : matchInputI c comps.length (fun g i => g == comps.getD i 0) [0, 0, 0, 0] with
+  | error e => simp only [hR, bind, Except.bind] at h; cases h
+  | ok R =>
+    simp only [hR, bind, Except.bind, ligatureFinish] at h
+    cases hok : R.r.ok with
+    | false =>
+      simp only [hok, Bool.not_false, if_true] at h
+      cases hb : c.buf.unsafeToConcat c.buf.idx (some R.r.endPos) with
+      | error e => simp [hb] at h
+      | ok b => simp [hb, pure, Except.pure] at h
+    | true =>
+      obtain ⟨r1, _, _, r4, r5⟩ := matchInputI_span c _ _ _ R hR hidx
+      have hwm := r1.mp hok
+      obtain ⟨q1, q2⟩ := r4 (Or.inl hwm)
+      simp only [hok, Bool.not_true, Bool.false_eq_true, if_false] at h
+      cases hl : ligateInput c (comps.length + 1) R.r.positions R.r.endPos R.r.totalComps lig with
+      | error e => simp [hl] at h
+      | ok c2 =>
+        simp only [hl, pure, Except.pure, Except.ok.injEq, Prod.mk.injEq, and_true] at h
+        subst h
+        refine ⟨R, rfl, hok, q1, q2, hl, ?_, ?_, ?_⟩
+        · intro i hi
+          rcases r5 _ hi with ⟨i', a1, a2, a3, a4⟩ | ⟨j, a1, _⟩
+          · cases a1; exact ⟨a2, a4 (by simp [hwm])⟩
+          · cases a1
+        · intro j hj
+          rcases r5 _ hj with ⟨i', a1, _⟩ | ⟨j', a1, _⟩ <;> cases a1
+        · intro j hj
+          rcases r5 _ hj with ⟨i', a1, _⟩ | ⟨j', a1, a2⟩
+          · cases a1
+          · cases a1; exact a2
+
+-- non-vacuity: "x (ligatures ignored) mark -> 99" on x, ligature, unattached mark, mark: the ligature forms, the skipped
+-- ligature glyph (index 1) and the mark (index 2) are among the reads, `match_end` = 3
+example : (matchInputI (ligCtx 8) 1 (fun g i => g == [10].getD i 0) [0, 0, 0, 0]).map MatchInI.view
+    = .ok (true, 3, [.inp 0, .inp 1, .inp 2], .matched) := by rfl
+example : (ligatureRule (ligCtx 8) ([10], 99)).map (fun r => ((r.1.buf.outArr.take r.1.buf.outLen).map (·.gid), r.2))
+    = .ok ([99, 20], true) := by rfl
+
+end RbModel.Flags
